@@ -42,15 +42,18 @@ Definition simple (M : matcher) : Prop :=
   p_root (m_pat M) = None /\
   NoDup (map fst (m_env M)).
 
+Definition nl : N := 10%N.
+
 (* what a match dictionary must say about the wildcards of a pattern:
    a star's value has no '/', a double star took no part or holds a non-empty
-   text followed by its suffix *)
+   text without newline followed by its suffix *)
 Definition star_value_ok (d : list (str * option str)) (n : node) : Prop :=
   match n with
   | NStar k => exists v, lookup (star_name k) d = Some (Some v) /\ has_char c_slash v = false
   | NStarstar k suffix =>
       lookup (star_name k) d = Some None \/
-      exists b, b <> [] /\ lookup (star_name k) d = Some (Some (b ++ suffix))
+      exists b, b <> [] /\ has_char nl b = false /\
+                lookup (star_name k) d = Some (Some (b ++ suffix))
   | _ => True
   end.
 
